@@ -61,9 +61,10 @@ func impls() []impl {
 func Run(c *vf.Check) {
 	c.Level = "model_checking"
 	is := impls()
-	vf.Parallel(len(is), func(i int) { runImpl(c, is[i]) })
+	vf.Parallel(len(is), func(i int) { runImpl(c, is[i]); runForeignReceivers(c, is[i]) })
 	c.Finish("engine S: per scalar implementation, V = S(q) + limb/word boundary values; all Add/Sub/Mul/Div on VxV, Neg/Inv on V, then every level-1 result (kept as the implementation object, not re-encoded) fed back as either operand of every operation against the core alphabet (depth-2 closure); "+
 		"Equal<=>residue equality on all pairs of a pool mixing decoded and computed forms; SetBytes for every length 0..96 x 12 patterns; SetInt64 boundaries; Zero/One; Pick under constant/counter/seeded/rejection-forcing streams with a recording stream (same drawn bytes => same value, whatever the receiver held). "+
+		"mod.Int: every operation into a target that is the zero value of mod.Int or was last used modulo another number, the target then used as receiver and first operand (the documented rule: the target receives the modulus of the first operand). "+
 		"non-trivial = both operands outside {0,1} (ops), input length not in {0} and value >= q or shorter than the modulus (SetBytes); distinct by (implementation, op, operand names)",
 		[]string{"operand values reach the implementation through UnmarshalBinary of canonical fixed-length encodings", "math/big is the reference",
 			"build variant: " + groups.Variant + " (mod.Int over bigmod is exercised by the constantTime binary, see coverage.variants)"},
